@@ -210,6 +210,7 @@ CANARIES = {
         ("escape-entry-lost", "stix2/canonicalization/Canonicalize.py", "drop-dict-entry", ["drop entry '\\t'"], "C16.escapes"),
     ],
     "C17": [
+        ('decoder-recursion-escapes', 'stix2/utils.py', 'text', ['        except RecursionError:\n            raise ValueError(\n                "Cannot convert JSON text to dictionary: nested too deeply",', '        except ZeroDivisionError:\n            raise ValueError(\n                "Cannot convert JSON text to dictionary: nested too deeply",'], 'C17.recursion-converted'),
         ('family-written-before-the-comparison', 'stix2/datastore/memory.py', 'text', ['        self.all_versions[obj["modified"]] = obj\n        if is_latest:', '        if is_latest:', '        is_latest = (\n', '        self.all_versions[obj["modified"]] = obj\n        is_latest = (\n'], 'C17.commit-last'),
         ('bundle-members-written-one-by-one', 'stix2/datastore/filesystem.py', 'text', ['            parsed_data = parse(stix_data, allow_custom=self.allow_custom, version=version)\n', "            if isinstance(stix_data, dict) and stix_data.get('type') == 'bundle':\n                for member in stix_data.get('objects', []):\n                    self.add(member, version=version, pretty=pretty)\n                return\n            parsed_data = parse(stix_data, allow_custom=self.allow_custom, version=version)\n"], 'C17.commit-last'),
         ('method-of-any-extension', 'stix2/v21/observables.py', 'text', ['        super(Process, self)._check_object_constraints()\n', "        super(Process, self)._check_object_constraints()\n        for ext in self.get('extensions', {}).values():\n            ext._check_at_least_one_property()\n"], 'C17.optional-subscript'),
